@@ -63,6 +63,9 @@ structure FileType where
   d253 : TsF
   d254 : TsF
   dropped : List Nat
+  /-- message numbers for which the exported struct DECLARES a typed field (`mesgdef.X` / `*mesgdef.X` / `[]*mesgdef.X`)
+  although `Add` keeps messages of that number as unrelated ones (the field is never filled); empty on a sound file type -/
+  declOnly : List Nat := []
   deriving DecidableEq, Repr
 
 end Fit.FileDef
